@@ -332,7 +332,7 @@ func runC02(p *Prog, r *Report, tier string) {
 	// no deleter program-wide (redundant with the writers rule; kept as an explicit zero-count rule)
 	nDel := 0
 	for _, fn := range p.Funcs {
-		for _, e := range p.effects(fn).direct {
+		for _, e := range p.own(fn) {
 			if e.Kind == "D" && e.Region == usedNonceRegion {
 				nDel++
 				r.fail("F-neg", "F-neg/used-nonce-deleter/"+funcName(fn), p.instrPos(e.In), "a used nonce can be deleted by "+funcName(fn))
@@ -352,7 +352,7 @@ func runC02(p *Prog, r *Report, tier string) {
 		}
 	}
 	if sc := p.fc(r, p.Func("keeper.Keeper.SetUsedNonce"), "SetUsedNonce", nil); sc != nil {
-		for _, e := range p.effects(sc.fn).direct {
+		for _, e := range p.own(sc.fn) {
 			if e.Kind == "W" {
 				sc.teq("T-eq", "stored-value", e.Val.String(), "k.cdc.MustMarshal(&p2)", p.instrPos(e.In))
 			}
@@ -417,7 +417,7 @@ func runC04(p *Prog, r *Report, tier string) {
 	ctxDiscipline(p, r, txRoots(p, "ReceiveMessage"))
 	var sites []string
 	for _, fn := range p.Funcs {
-		for _, e := range p.effects(fn).direct {
+		for _, e := range p.own(fn) {
 			if e.Kind == "LEDGER" && e.Region == "fiattokenfactory.Mint" {
 				sites = append(sites, funcName(fn))
 			}
@@ -454,7 +454,7 @@ func runC04(p *Prog, r *Report, tier string) {
 	// events
 	sub := *c
 	nEv := 0
-	for _, e := range p.effects(c.fn).direct {
+	for _, e := range p.own(c.fn) {
 		if e.Kind != "EVENT" {
 			continue
 		}
